@@ -7,7 +7,7 @@
   D4 built-in opcodes win name lookup: sets searched in registration order, "sys" first
   D5 no long-lived pointer into the realloc'ed opcode-set array
 """
-from facts import Locals, AnalysisBroken, access_path, strip_casts, unparse
+from facts import init_rows, Locals, AnalysisBroken, access_path, strip_casts, unparse
 from flow import Facts
 from rules_common import where, returned_constants, is_null_test
 
@@ -253,8 +253,24 @@ def run(ctx):
     src = [unparse(n.c[1]) for n in ee.walk() if n.k == "BinaryOperator" and n.op == "=" and unparse(n.c[0]).endswith(".emulateN")]
     rep.check(src in (["opcode->emulateN"], ["insn->opcode->emulateN"]), "D3-DISPATCH", where(ee), "emulateN-source",
               "emulation uses the emulateN of the instruction's own opcode", "emulateN is taken from %s" % src)
-    ALLOWED_SYS = ("orc_bytecode_from_program", "orc_bytecode_parse_function", "orc_parse_init", "orc_opcode_sys_init")
+    # A lookup restricted to the built-in set is harmless exactly when the name looked up is one of the built-in opcodes'
+    # own names (the implicit loadX/storeX ...); it breaks registered sets when the name can come from a program.
+    builtin = {r["name"] for r in init_rows(db.tu("orcopcodes-sys").global_("opcodes")) if isinstance(r, dict) and r.get("name")}
+    REGISTRATION = lambda g: g.name.endswith("_register_rules") or g.name.endswith("_init") or "register" in g.name
     nsys = 0
+
+    def names_ok(g, name_expr, depth=0):
+        """the name passed to a sys-only lookup is always a literal naming a built-in opcode"""
+        e = strip_casts(name_expr)
+        if e is None:
+            return False
+        if e.k == "StringLiteral":
+            return e.get("str") in builtin
+        if e.k == "DeclRefExpr" and e.get("dk") == "param" and depth < 3:
+            idx = [i for i, pr in enumerate(g.params) if pr["name"] == e.name]
+            callers = db.callers().get(g.name, [])
+            return bool(idx) and bool(callers) and all(names_ok(cf, cc.args()[idx[0]], depth + 1) for cf, cc in callers if len(cc.args()) > idx[0])
+        return False
     for f in db.all_functions():
         if not f.relfile.startswith("orc/"):
             continue
@@ -263,9 +279,20 @@ def run(ctx):
             if lit.get("str") != "sys":
                 continue
             nsys += 1
-            ok = f.name in ALLOWED_SYS or f.name.endswith("_register_rules") or f.name.endswith("_init") or "register" in f.name
-            rep.check(ok, "D3-DISPATCH", where(f), "uses-sys-set", "\"sys\" looked up by serialiser/parser/registration code only",
-                      "%s looks opcodes up in the \"sys\" set: on the compile/run path this breaks application-registered opcode sets" % f.name, line=c.line)
+            if REGISTRATION(f):
+                rep.ok("D3-DISPATCH", where(f), "uses-sys-set", "\"sys\" looked up by registration code (attaches rules to the built-in set)")
+                continue
+            # every name looked up in that set by this function
+            lookups = [x for x in f.calls("orc_opcode_set_find_by_name")]
+            bad = [x for x in lookups if not names_ok(f, x.args()[1])]
+            indexed = [x for x in f.walk() if x.k == "ArraySubscriptExpr" and (access_path(x.c[0]) or "").endswith("->opcodes") and strip_casts(x.c[1]).v is None
+                       and not lookups]
+            serialiser = f.name.startswith("orc_bytecode_") or f.name.startswith("orc_parse_")
+            ok = not bad and (bool(lookups) or serialiser)
+            rep.check(ok, "D3-DISPATCH", where(f), "uses-sys-set",
+                      "\"sys\" lookups in %s concern built-in opcode names only (%d lookups)" % (f.name, len(lookups)),
+                      "%s restricts an opcode lookup to the \"sys\" set for a name that need not be a built-in opcode (`%s`): opcodes of "
+                      "application-registered sets are then not found on this path" % (f.name, unparse(bad[0].args()[1])[:40] if bad else "set used without a by-name lookup"), line=c.line)
     if nsys < 8:
         raise AnalysisBroken("only %d lookups of the sys set found" % nsys)
     for f in db.all_functions():
@@ -273,6 +300,8 @@ def run(ctx):
             for c in f.calls("orc_opcode_set_get_nth"):
                 if strip_casts(c.args()[0]).v is not None:
                     rep.violation("D3-DISPATCH", where(f), "get_nth(const)", "opcode set selected by a constant index on the compile/run path", line=c.line)
+
+    d7_no_cached_interior_pointer(db, rep)
 
     # ---- D4 ------------------------------------------------------------------
     fn = db.func("orc_opcode_find_by_name", "orcopcode")
@@ -324,3 +353,96 @@ def run(ctx):
     rsrec = db.record("OrcRuleSet")
     rep.check(any(f["name"] == "opcode_major" and "int" in f["ty"] for f in rsrec["fields"]), "D5-NO-STALE-SET-POINTER", "orc/orcrule.h", "OrcRuleSet.opcode_major",
               "rule sets identify their opcode set by the integer major", "OrcRuleSet no longer identifies its opcode set by an integer major")
+
+
+def d7_no_cached_interior_pointer(db, rep):
+    """D7: the opcode-set table is a heap array that every registration reallocates.  Functions returning `table + i` /
+    `&table[i]` hand out pointers that the next orc_opcode_register_static() may invalidate, so such a pointer must not be
+    kept in storage that outlives the call (a static / global variable, a field of a longer-lived object): after a
+    registration, built-in lookups through the kept pointer read freed memory."""
+    tu = db.tu("orcopcode")
+    grow = set()
+    for f in tu.main_functions():
+        for x in f.walk():
+            if x.k == "BinaryOperator" and x.op == "=" and strip_casts(x.c[1]) is not None and strip_casts(x.c[1]).k == "CallExpr" \
+                    and strip_casts(x.c[1]).name in ("realloc", "orc_realloc"):
+                l = strip_casts(x.c[0])
+                if l is not None and l.k == "DeclRefExpr" and l.get("dk") in ("global", "static_local"):
+                    grow.add(l.name)
+    if "opcode_sets" not in grow:
+        raise AnalysisBroken("the opcode-set table is no longer a reallocated global (found: %s)" % sorted(grow))
+    providers = {}
+    for f in tu.main_functions():
+        for r in f.walk():
+            if r.k != "ReturnStmt" or not r.c or r.c[0] is None:
+                continue
+            e = strip_casts(r.c[0])
+            base = None
+            if e is not None and e.k == "BinaryOperator" and e.op == "+":
+                base = strip_casts(e.c[0])
+            elif e is not None and e.k == "UnaryOperator" and e.op == "&" and strip_casts(e.c[0]) is not None and strip_casts(e.c[0]).k == "ArraySubscriptExpr":
+                base = strip_casts(strip_casts(e.c[0]).c[0])
+            if base is not None and base.k == "DeclRefExpr" and base.name in grow:
+                providers[f.name] = base.name
+    if len(providers) < 2:
+        raise AnalysisBroken("functions returning pointers into the opcode-set table: %s" % sorted(providers))
+    n = 0
+    for f in db.all_functions():
+        if not (f.relfile.startswith("orc/") or f.relfile.startswith("tools/")):
+            continue
+        for c in f.calls():
+            if c.name not in providers:
+                continue
+            n += 1
+            p = c.parent
+            while p is not None and p.k in ("CStyleCastExpr", "ParenExpr", "ImplicitCastExpr"):
+                p = p.parent
+            kept = None
+            if p is not None and p.k == "VarDecl" and p.get("static"):
+                kept = "the static variable `%s`" % p.name
+            elif p is not None and p.k == "BinaryOperator" and p.op == "=" and any(y is c for y in p.c[1].walk()):
+                l = strip_casts(p.c[0])
+                if l is not None and l.k == "DeclRefExpr" and l.get("dk") in ("global", "static_local"):
+                    kept = "the %s variable `%s`" % ("static" if l.get("dk") == "static_local" else "global", l.name)
+                elif l is not None and l.k in ("MemberExpr", "ArraySubscriptExpr"):
+                    root = l
+                    while root is not None and root.k in ("MemberExpr", "ArraySubscriptExpr"):
+                        root = strip_casts(root.c[0])
+                    if root is None or root.k != "DeclRefExpr" or root.get("dk") != "local" or "*" in (root.ty or ""):
+                        rec = ((root.ty if root is not None else "") or "").replace("const ", "").replace("*", "").replace("struct ", "").strip()
+                        if not (rec and _only_automatic_instances(db, rec)):
+                            kept = "`%s`" % unparse(l)[:40]
+            rep.check(kept is None, "D7-NO-CACHED-SET", where(f), "%s@%s:%s" % (c.name, f.name, c.line),
+                      "the pointer into the opcode-set table is used within the call only",
+                      "%s keeps the result of %s() in %s; it points into `%s`, which orc_opcode_register_static() reallocates: after an application "
+                      "registers an opcode set the kept pointer dangles and lookups of built-in opcodes read freed memory" %
+                      (f.name, c.name, kept, providers[c.name]), line=c.line)
+    if n < 8:
+        raise AnalysisBroken("only %d calls of opcode-set providers found" % n)
+
+
+_AUTO = {}
+
+
+def _only_automatic_instances(db, rec):
+    """objects of record type `rec` exist only as automatic (stack) variables: none is global/static, none is heap-allocated
+    (no sizeof(rec) anywhere).  Such an object cannot outlive the call tree that created it."""
+    if rec in _AUTO:
+        return _AUTO[rec]
+    names = {rec, "_" + rec, "struct _" + rec, "struct " + rec}
+    ok, seen_local = True, False
+    for t in db.tus.values():
+        for g in t.globals:
+            if (g.get("ty") or "").replace("const ", "").replace("static ", "").strip().rstrip("[]0123456789 ") in names:
+                ok = False
+    for f in db.all_functions():
+        for x in f.walk():
+            if x.k == "VarDecl" and (x.ty or "").replace("const ", "").strip() in names:
+                if x.get("static"):
+                    ok = False
+                else:
+                    seen_local = True
+            elif x.k == "UnaryExprOrTypeTraitExpr" and (x.get("argty") or "") in names:
+                ok = False
+    _AUTO[rec] = ok and seen_local
+    return _AUTO[rec]
